@@ -328,6 +328,45 @@ func TestC19(t *testing.T) {
 			}
 		}
 	}
+	// structured interface identifiers: inside every IPv6 block of /64 or shorter (and two public /64s, where only
+	// the consistency oracles speak) the low 64 bits spell the known ways of embedding an IPv4 address or a MAC -
+	// ISATAP (0000:5efe / 0200:5efe + IPv4), IPv4 in the low 32 bits, ffff + IPv4, EUI-64, all ones, one - with a
+	// public, a private, a loopback and a documentation IPv4 address. A block member is reserved whatever it embeds.
+	{
+		var prefixes []net.IP
+		for _, b := range modelBlocks {
+			if _, n, err := net.ParseCIDR(b.CIDR); err == nil && n.IP.To4() == nil {
+				if ones, _ := n.Mask.Size(); ones <= 64 {
+					prefixes = append(prefixes, n.IP.To16())
+					mid := append(net.IP{}, n.IP.To16()...)
+					mid[7] ^= 0x5a // another /64 of the same block
+					if n.Contains(mid) {
+						prefixes = append(prefixes, mid)
+					}
+				}
+			}
+		}
+		prefixes = append(prefixes, net.ParseIP("2001:4860:4860::"), net.ParseIP("2606:4700:4700::"))
+		v4s := [][]byte{{8, 8, 8, 8}, {10, 0, 0, 1}, {127, 0, 0, 1}, {192, 0, 2, 1}, {193, 0, 14, 129}}
+		for _, pfx := range prefixes {
+			var iids [][]byte
+			for _, v4 := range v4s {
+				iids = append(iids, append([]byte{0, 0, 0x5e, 0xfe}, v4...), append([]byte{2, 0, 0x5e, 0xfe}, v4...), append([]byte{0, 0, 0, 0}, v4...), append([]byte{0, 0, 0xff, 0xff}, v4...), append(append([]byte{}, v4...), 0, 0, 0, 0))
+			}
+			iids = append(iids, []byte{2, 0x11, 0x22, 0xff, 0xfe, 0x33, 0x44, 0x55}, []byte{0xff, 0xff, 0xff, 0xff, 0xff, 0xff, 0xff, 0xff}, []byte{0, 0, 0, 0, 0, 0, 0, 1}, []byte{0xfd, 0xff, 0xff, 0xff, 0xff, 0xff, 0xff, 0x80})
+			for _, iid := range iids {
+				k++
+				if !stats.Mine(k) {
+					continue
+				}
+				ip := append(append(net.IP{}, pfx[:8]...), iid...)
+				rec.Class("structured_interface_id")
+				rec.NT(stats.HashS("iid", ip.String()))
+				report(c19Case{What: "addr", IP: ip.String()})
+				report(c19Case{What: "net", IP: ip.String(), Prefix: 128})
+			}
+		}
+	}
 	for _, a := range publicAnchors {
 		k++
 		if !stats.Mine(k) {
